@@ -3,8 +3,8 @@
 
   One `Cursor` per thread (the `threading.local`), the shared failure set (`_failures`), the shared
   attachment counter, the attachments that are prepared but not yet reported (`prepare_attachment` is a
-  context manager: the name is computed on entry, the event is fired on exit, the user's `with` body runs
-  in between), and the list of events fired so far (what `event_manager.fire` received, in
+  context manager: the name is computed on entry, the event is fired on normal exit, the user's `with` body runs
+  in between; when the body raises the block is left without any event: `attachAbort`), and the list of events fired so far (what `event_manager.fire` received, in
   order).  Every `Event(...)` construction reads the clock once; with the harness's fake clock
   (+1 per read) `now` is exactly that counter, so fired events can be compared including times.
   Core Lean only.
@@ -66,6 +66,7 @@ inductive Op
   | attach (filename description : String) (asImage : Bool)   -- `with prepare_attachment(..)` with a body that calls no api
   | attachBegin (filename description : String) (asImage : Bool)  -- entering `with prepare_attachment(..)`
   | attachEnd                                                -- leaving the innermost block this thread entered
+  | attachAbort                                              -- an exception leaves the innermost block this thread entered
   | threadCreate (newTid : Nat)        -- `lcc.Thread(...)` constructed by thread `tid`
   | threadRun                          -- `Thread.run` prologue, executed by the new thread itself
   | threadEnd                          -- `Thread.run` epilogue (`finally: end_step()`)
@@ -199,6 +200,13 @@ def step (s : St) (tid : Nat) : Op → Except Err St
     | some p =>
       let s := { s with prepared := s.prepared.eraseP (fun p => p.tid == tid) }
       stepped s tid false (fun loc st t => .attachment loc st tid p.name p.description p.asImage t)
+  | .attachAbort =>
+    -- the `with` body (or `shutil.copy` in `save_attachment_file`) raised: the exception is thrown into the
+    -- generator at its `yield` and propagates (there is no `try` around the `yield`) — nothing after the `yield`
+    -- runs: no flush, no event; the name that was handed out is simply never reported (the counter keeps its value)
+    match s.prepared.find? (fun p => p.tid == tid) with
+    | none => .error .noAttach
+    | some _ => .ok { s with prepared := s.prepared.eraseP (fun p => p.tid == tid) }
   | .threadCreate newTid =>
     withCursor s tid fun c =>
       -- precondition (always true when the runner calls user code): a step is current; without one the
